@@ -2,6 +2,7 @@ package topics
 
 import (
 	"context"
+	"github.com/PowerDNS/lightningstream/utils/verifhook"
 	"sync"
 )
 
@@ -32,12 +33,14 @@ type Topic[T any] struct {
 
 // Publish publishes a new value to all subscribers
 func (t *Topic[T]) Publish(v T) {
+	verifhook.Yield("topic.publish.lock", "")
 	t.mu.Lock()
 	defer t.mu.Unlock()
 
 	t.last = v
 	t.hasLast = true
 	for _, ch := range t.subscribers {
+		verifhook.Yield("topic.publish.send", "")
 		ch <- v // blocking
 	}
 }
@@ -60,6 +63,7 @@ func (t *Topic[T]) Last() (value T, ok bool) {
 // - We will immediately send the last value, if any.
 // - The channel will be a buffered one with size 1.
 func (t *Topic[T]) Subscribe(sendLast bool) *Subscription[T] {
+	verifhook.Yield("topic.subscribe.lock", "")
 	t.mu.Lock()
 	defer t.mu.Unlock()
 
@@ -109,6 +113,7 @@ func (t *Topic[T]) Handle(ctx context.Context, cb func(T) error) error {
 // unsubscribeID is called by Subscription.Close()
 // It removes a subscription.
 func (t *Topic[T]) unsubscribeID(id subscriptionID) {
+	verifhook.Yield("topic.unsubscribe.lock", "")
 	t.mu.Lock()
 	defer t.mu.Unlock()
 
